@@ -323,7 +323,7 @@ int main(int argc, char** argv)
 #if defined(MC_FLAVOUR_SAN)
     // sanitizer build: only the raw-pointer jobs (the wrappers check their own ranges; keeps the compile small)
     m.job("bsearch/ptr", both, [](mc::Reporter& r) { job_bsearch<PtrF>(r, 7, 10); });
-    m.job("merge/ptr+ptr->ptr", both, [](mc::Reporter& r) { job_merge<PtrF, PtrF, PtrF>(r, 5, 5, 7, 6); });
+    m.job("merge/ptr+ptr->ptr", both, [](mc::Reporter& r) { job_merge<PtrF, PtrF, PtrF>(r, 5, 5, 10, 8); });
 #else
 #if !defined(MC_PART) || MC_PART == 1
     m.job("bsearch/ptr", both, [](mc::Reporter& r) { job_bsearch<PtrF>(r, 7, 10); });
@@ -338,12 +338,12 @@ int main(int argc, char** argv)
     });
 #endif
 #if !defined(MC_PART) || MC_PART == 2
-    m.job("merge/ptr+ptr->ptr", both, [](mc::Reporter& r) { job_merge<PtrF, PtrF, PtrF>(r, 5, 5, 7, 6); });
-    m.job("merge/input+input->output", both, [](mc::Reporter& r) { job_merge<InF, InF, OutF>(r, 5, 5, 7, 6); });
+    m.job("merge/ptr+ptr->ptr", both, [](mc::Reporter& r) { job_merge<PtrF, PtrF, PtrF>(r, 5, 5, 10, 8); });
+    m.job("merge/input+input->output", both, [](mc::Reporter& r) { job_merge<InF, InF, OutF>(r, 5, 5, 10, 8); });
 #endif
 #if !defined(MC_PART) || MC_PART == 3
-    m.job("merge/fwd+bidi->fwd", both, [](mc::Reporter& r) { job_merge<FwdF, BidiF, FwdF>(r, 5, 5, 7, 6); });
-    m.job("merge/ra+rev->back_inserter", both, [](mc::Reporter& r) { job_merge<RaF, RevF, BackInsF>(r, 5, 5, 7, 6); });
+    m.job("merge/fwd+bidi->fwd", both, [](mc::Reporter& r) { job_merge<FwdF, BidiF, FwdF>(r, 5, 5, 10, 8); });
+    m.job("merge/ra+rev->back_inserter", both, [](mc::Reporter& r) { job_merge<RaF, RevF, BackInsF>(r, 5, 5, 10, 8); });
 #endif
 #endif
     return m.run();
